@@ -18,7 +18,7 @@ EXPLANATION = (
     "All clauses are decided on a normalised copy of LoopingCall (private helpers inlined, naming temporaries substituted). "
     "(a) No overlap - STRUCTURAL (who-may-call + CFG dominance): _scheduleFrom / callLater(self) / self() are reached only from start (exclusive now / "
     "not-now branches), reset (pending call cancelled first) and the success callback on maybeDeferred(self.f) under `self.running`, each reached where "
-    "it must be; __call__ clears self.call before f and calls f only through maybeDeferred. "
+    "it must be; __call__ clears self.call before f, calls f only through maybeDeferred, and the completion callbacks are never called directly but registered on the result Deferred on every path (who-may-call + must-pass). "
     "(b) start()'s Deferred fires exactly once, nothing afterwards - STRUCTURAL (take-then-fire, must-pass, who-may-write): every fire uses a local detached "
     "(swap with None) before the call-out with running already False; the errback always fires, the success callback fires on the not-running branch, stop() "
     "cancels, forgets and fires only when a call is pending; start() returns the local it stored and completes its state before the first call. "
@@ -170,6 +170,35 @@ def check(ctx):
         ctx.check(bool(clear) and w is None, "call/clears-call-before-f", qc,
                   "self.call is not reset to None before f runs: stop()/reset() issued by f (or by the synchronous callback chain) would "
                   "cancel a stale DelayedCall, and a synchronously rescheduled call would be forgotten", witness=g.describe(w))
+
+    # ---- (a) the continuation runs only through the result Deferred's callback chain --------------------
+    with section(ctx, "(a) continuation only through the callback chain"):
+        # cb (reschedule / report stop) and eb (failure) must run when - and only when - the Deferred of f's result has really finished: that is
+        # what registering them on it guarantees (a fired Deferred can still be paused on an inner one).  So: they are never *called* by the
+        # class itself, and __call__ registers both on every path after maybeDeferred.
+        qcc = f"{Q}.__call__"
+        def refers(x, key):
+            return (isinstance(x, ast.Name) and x.id == key) or (key.startswith("self.") and self_attr(x, key[5:]))
+        for key in sorted(cbs | ebs):
+            for qx, fx in funcs:
+                nodes_ = ast.walk(fx.body) if isinstance(fx, ast.Lambda) else body_walk(fx)
+                for c in nodes_:
+                    if isinstance(c, ast.Call) and refers(c.func, key) and (key.startswith("self.") or qx.startswith("LoopingCall.__call__")):
+                        ctx.violation("no-overlap/continuation-only-as-callback", ctx.construct(f"twisted.internet.task.{qx}", "<direct call of the completion callback>"),
+                                      f"{src(c)}: the completion callback is invoked directly instead of by the result Deferred: a Deferred that has fired but is still "
+                                      "waiting on an inner Deferred counts as finished - the next call is scheduled while the previous one is in flight, stop() reports early, "
+                                      "a later failure never reaches the errback")
+        g = ctx.cfg(f_call)
+        mdn = gfind(g, lambda x: any(x is c for c in md_calls))
+        def reg_nodes(keys):
+            return gfind(g, lambda x: isinstance(x, ast.Call) and isinstance(x.func, ast.Attribute) and x.func.attr in ("addCallback", "addErrback", "addCallbacks", "addBoth")
+                         and any(refers(a_, k_) for k_ in keys for a_ in list(x.args) + [kw_.value for kw_ in x.keywords]))
+        for side, keys in (("success", cbs), ("failure", ebs)):
+            rn = reg_nodes(keys)
+            w = must_pass(g, [d for n in mdn for d, l in g.succ[n] if l != "exc"], rn, exc=False) if mdn else None
+            ctx.check(bool(rn) and w is None, "no-overlap/continuation-only-as-callback", qcc + f" | <{side} callback registered on every path>",
+                      f"after f was called, __call__ can finish without registering the {side} callback on the result Deferred (a branch bypasses the callback chain)",
+                      witness=g.describe(w))
 
     # ---- (a) who may (re)schedule -------------------------------------------------------------------------
     with section(ctx, '(a) who may (re)schedule'):
@@ -820,6 +849,11 @@ MUTANTS = [
            more=[(TASK, "class LoopingCall:\n", "def _untilNextTick(origin, period, at):\n    if period == 0:\n        return 0\n    into = at - origin\n    left = period - (into % period)\n    absorbed = into + left == into\n    return period if absorbed else left\n\n\nclass LoopingCall:\n")], expect_rule="cadence/absorption-test-on-clock-reading"),
     Mutant("reset-re-anchors-on-a-stale-snapshot", TASK, "            self.starttime = self.clock.seconds()\n            self._scheduleFrom(self.starttime)\n",
            "            again = self.starttime\n            self.starttime = again\n            self._scheduleFrom(again)\n", expect_rule="who-may-write/starttime"),
+    Mutant("finished-result-short-circuits-the-callback-chain", TASK, "        d.addCallback(cb)\n        d.addErrback(eb)\n",
+           "        if getattr(d, \"called\", False) and not d.paused and not isinstance(d.result, Failure):\n            return cb(d.result)\n        d.addCallback(cb)\n        d.addErrback(eb)\n",
+           expect_rule="no-overlap/continuation-only-as-callback"),
+    Mutant("errback-registered-only-on-one-branch", TASK, "        d.addCallback(cb)\n        d.addErrback(eb)\n",
+           "        d.addCallback(cb)\n        if not d.called:\n            d.addErrback(eb)\n", expect_rule="no-overlap/continuation-only-as-callback"),
     Mutant("count-boundary-off-by-one", TASK, "            if count > 0:\n                self._realLastTime = now\n", "            if count > 1:\n                self._realLastTime = now\n",
            expect_rule="count/sum-equals-boundaries"),
     Mutant("count-forgets-immediate-call", TASK, "                    lastTime -= self.interval\n", "                    pass\n",
